@@ -206,9 +206,7 @@ class Engine:
             if via == "copy":
                 tree = copy.deepcopy(tree)
             return "ok", canon.tree_digest(T.flatten(tree, A.ComponentRef.from_string(cls)))
-        except RecursionError:
-            raise
-        except Exception as e:
+        except Exception as e:  # incl. RecursionError: endless lookups are an outcome of the code under test too
             return "fail", type(e).__name__
 
     def execute(self, plan, replay=False):
